@@ -431,6 +431,7 @@ func runC18(c *Ctx) {
 		}
 		var order []string
 		var locs []core.Loc
+		var nodes []ast.Node
 		for _, t := range transforms {
 			hs := g.FindCalls(t)
 			if len(hs) != 1 {
@@ -439,10 +440,19 @@ func runC18(c *Ctx) {
 			}
 			order = append(order, t)
 			locs = append(locs, hs[0].Loc)
+			nodes = append(nodes, hs[0].Node)
 		}
 		okOrd := len(locs) == len(transforms)
 		for i := 1; i < len(locs); i++ {
-			if !g.Dominates(locs[i-1], locs[i]) || locs[i-1] == locs[i] {
+			if locs[i-1] == locs[i] {
+				// one statement: the earlier transform must be the list argument of the later one (minP(topP(ts, p), q))
+				later, isC := nodes[i].(*ast.CallExpr)
+				if !isC || len(later.Args) == 0 || ast.Unparen(later.Args[0]) != ast.Expr(nodes[i-1].(*ast.CallExpr)) {
+					okOrd = false
+				}
+				continue
+			}
+			if !g.Dominates(locs[i-1], locs[i]) {
 				okOrd = false
 			}
 		}
